@@ -1621,6 +1621,57 @@ def view_base_bits(src, start, length, rc, i):
     return t_not(var(src, 2 * j)), t_not(var(src, 2 * j + 1))
 
 
+def slice_getkmer_lemmas(F, rep, rule="C15.1", quick=True):
+    """Vmer::get_kmer on a VIEW, monomorphic and exact: for every listed k-mer type, view (start, is_rc) and position, the result is the K
+    bases view[pos..pos+K] (for a reverse-complement view: the complemented bases read backwards).  Starts and positions put the k-mer at
+    every kind of offset inside the backing string's storage words — aligned, straddling two words, straddling three words (K > 32)."""
+    try:
+        dt = DnaT(F)
+    except Unsupported as e:
+        rep.inconclusive(rule, "DnaString", "role discovery: %s" % e)
+        return
+    flds = [f["name"] for f in F.adts.get(SLICE_T, {}).get("variants", [{}])[0].get("fields", [])] if hasattr(F, "adts") else []
+    order = flds if sorted(flds) == sorted(["dna_string", "start", "length", "is_rc"]) else ["dna_string", "start", "length", "is_rc"]
+    names = [k["ty"] for k in F.kmer_types]
+    if quick:
+        pick = [n for n in names if n in ("kmer::IntKmer<u128>", "kmer::VarIntKmer<u128, kmer::K48>", "kmer::VarIntKmer<u128, kmer::K40>",
+                                          "kmer::IntKmer<u64>", "kmer::VarIntKmer<u64, kmer::K31>", "kmer::VarIntKmer<u8, kmer::K3>")] or names[:6]
+    else:
+        pick = names
+    nback = 200
+    for kty in pick:
+        try:
+            kt = KType(F, kty)
+            kt.K = kmer_k(F, kt)
+        except Exception:
+            continue
+        K = kt.K
+        key = "<%s<'_> as Vmer>::get_kmer::<%s>" % (SLICE_T, kty)
+        if key not in F.insts:
+            rep.inconclusive(rule, "view-getkmer/%s" % kty, "no monomorphic instance %s in the driver's facts" % key)
+            continue
+        for st in ((0, 1, 17, 31, 33) if quick else (0, 1, 9, 17, 25, 31, 32, 33, 63)):
+            for pos in ((0, 1, 8) if quick else (0, 1, 7, 8, 24, 31, 32)):
+                for rc in (False, True):
+                    ln = pos + K + 2
+                    vk = "%s/start=%d/pos=%d/rc=%d" % (kty, st, pos, int(rc))
+
+                    def f(st=st, pos=pos, rc=rc, ln=ln, kt=kt, K=K, kty=kty, key=key, vk=vk):
+                        vals = {"dna_string": Ref(Cell(dt.sym("s", nback), "back")), "start": usize(st), "length": usize(ln),
+                                "is_rc": Int(8, False, val=int(rc), kind="bool")}
+                        view = Adt(SLICE_T, 0, [vals[k] for k in order])
+                        r, _ = run_inst(F, key, [Ref(Cell(view, "self")), usize(pos)])
+                        spec = [ZERO] * kt.W
+                        for j in range(K):
+                            hi, lo = kt.lane_bits(j)
+                            blo, bhi = view_base_bits("s", st, ln, rc, pos + j)
+                            spec[hi], spec[lo] = bhi, blo
+                        expect_bits(rep, rule, "view-getkmer/" + vk, kt.storage_of(r), spec,
+                                    "get_kmer::<%s>(%d) on the view (start %d, length %d, is_rc %s) = the %d bases of the view from position %d"
+                                    % (kty, pos, st, ln, rc, K, pos))
+                    guarded(rep, rule, "view-getkmer/" + vk, "get_kmer", f)
+
+
 def slice_exact_lemmas(F, rep, rule="C15.1", nback=70, quick=True):
     from .absint import tags_of
     from .dt import Oracles, explore
@@ -1646,7 +1697,13 @@ def slice_exact_lemmas(F, rep, rule="C15.1", nback=70, quick=True):
     H = render_harness()
     starts = (0, 1, 31, 32, 33) if quick else (0, 1, 2, 31, 32, 33, 63, 64)
     lens = (0, 1, 3, 31, 32, 33) if quick else (0, 1, 2, 3, 31, 32, 33, 34)
-    views = [(st, ln, rc) for st in starts for ln in lens for rc in (False, True) if st + ln <= nback]
+    views = [(nback, st, ln, rc) for st in starts for ln in lens for rc in (False, True) if st + ln <= nback]
+    # views that END AT THE END of a backing string whose length is a multiple of the storage word (no spare word behind them), and
+    # views of the empty string (no storage word at all)
+    for nb_, st_, ln_ in ((64, 32, 32), (64, 33, 31), (64, 0, 64), (64, 64, 0), (32, 0, 32), (32, 1, 31), (32, 31, 1), (0, 0, 0)) + \
+            (() if quick else ((96, 33, 63), (96, 64, 32), (32, 32, 0), (64, 63, 1))):
+        for rc_ in (False, True):
+            views.append((nb_, st_, ln_, rc_))
 
     def want_tags(st, ln, rc):
         out = []
@@ -1665,8 +1722,9 @@ def slice_exact_lemmas(F, rep, rule="C15.1", nback=70, quick=True):
             out.append(t[0] if t else None)
         return out
 
-    for st, ln, rc in views:
-        vk = "start=%d/len=%d/rc=%d" % (st, ln, int(rc))
+    nback0 = nback
+    for nback, st, ln, rc in views:
+        vk = "start=%d/len=%d/rc=%d" % (st, ln, int(rc)) + ("" if nback == nback0 else "/backing=%d" % nback)
 
         def f_owned():
             it = Interp(F, False, Harness())
@@ -1729,6 +1787,7 @@ def slice_exact_lemmas(F, rep, rule="C15.1", nback=70, quick=True):
                                      witness={"kind": "render", "got": text[:200], "want": wtext[:200]})
             guarded(rep, rule, "exact/%s/%s" % (short, vk), short, f_r)
 
+    nback = nback0
     # ---- equality: exact table.  Operands over the same or different backing strings; every comparison of two base values is an oracle
     # named by the provenance of both operands; the verdict must be `all positions equal`, and `true` may only be returned when every
     # position whose two provenance terms are not identical has been compared (ANF terms are canonical: different terms differ somewhere)
